@@ -92,4 +92,220 @@ theorem nametest_prefix_irrelevant (env env' : XPath.Env) (a : Axis) (p p' l : S
     nodeTest env a (.nsAny p) k = nodeTest env' a (.nsAny p') k := by
   simp [nodeTest, hdoc, hb]
 
+/-! ### the renaming clause on the DOCUMENT side: "results do not change when prefixes are renamed
+    consistently in the document".  `renDoc ρ d` renames every prefix of `d` - on element names, on attribute
+    names and in the in-scope namespaces of every element - by an injective `ρ` that keeps "no prefix" apart
+    from every prefix (`ρ [] = []`).  Every key then denotes a node of the same kind with the same expanded
+    name, the document has the same keys in the same order, and so every node test answers as before for every
+    node other than a namespace node (whose expanded name IS the prefix: `namespace::p` is the one test the
+    renaming is allowed to change, and the checks exempt it for that reason). -/
+
+def renQ (ρ : Str → Str) (q : QN) : QN := ⟨q.pre.map ρ, q.loc⟩
+def renNs (ρ : Str → Str) (b : Str × Str) : Str × Str := (ρ b.1, b.2)
+def renAt (ρ : Str → Str) (a : QN × Str) : QN × Str := (renQ ρ a.1, a.2)
+
+mutual
+def renNode (ρ : Str → Str) : XNode → XNode
+  | .elem q ns as ks => .elem (renQ ρ q) (ns.map (renNs ρ)) (as.map (renAt ρ)) (renNodes ρ ks)
+  | .text s => .text s
+  | .comment s => .comment s
+  | .pi t s => .pi t s
+def renNodes (ρ : Str → Str) : List XNode → List XNode
+  | [] => []
+  | n :: r => renNode ρ n :: renNodes ρ r
+end
+
+def renDoc (ρ : Str → Str) (d : XDoc) : XDoc := { d with kids := renNodes ρ d.kids }
+
+def renTarget (ρ : Str → Str) : Target → Target
+  | .root => .root
+  | .node n => .node (renNode ρ n)
+  | .attr o q v => .attr (renNode ρ o) (renQ ρ q) v
+  | .ns o p u => .ns (renNode ρ o) (ρ p) u
+
+theorem renNodes_map (ρ : Str → Str) : ∀ ks, renNodes ρ ks = ks.map (renNode ρ)
+  | [] => rfl
+  | n :: r => by simp [renNodes, renNodes_map ρ r]
+
+theorem renNode_kids (ρ : Str → Str) (n : XNode) : (renNode ρ n).kids = renNodes ρ n.kids := by
+  cases n <;> simp [renNode, XNode.kids, renNodes]
+
+theorem renNode_attrs (ρ : Str → Str) (n : XNode) : (renNode ρ n).attrs = n.attrs.map (renAt ρ) := by
+  cases n <;> simp [renNode, XNode.attrs]
+
+theorem renNode_nss (ρ : Str → Str) (n : XNode) : (renNode ρ n).nss = n.nss.map (renNs ρ) := by
+  cases n <;> simp [renNode, XNode.nss]
+
+/-- a key denotes, in the renamed document, the renamed target -/
+theorem lookupIn_ren (ρ : Str → Str) : ∀ (ks : List XNode) (k : Key),
+    lookupIn (renNodes ρ ks) k = (lookupIn ks k).map (renTarget ρ)
+  | _, [] => by simp [lookupIn]
+  | ks, [i] => by
+    by_cases h : i ≥ 2
+    · simp only [lookupIn, if_pos h, renNodes_map, List.getElem?_map, Option.map_map]; rfl
+    · simp [lookupIn, h]
+  | ks, i :: j :: r => by
+    by_cases h : i ≥ 2
+    · simp only [lookupIn, if_pos h, renNodes_map, List.getElem?_map]
+      cases hn : ks[i - 2]? with
+      | none => simp
+      | some n =>
+        simp only [Option.map_some]
+        by_cases hj : (j == 0) = true
+        · simp only [hj, if_true]
+          match r with
+          | [k] => simp only [renNode_nss, List.getElem?_map, Option.map_map]; rfl
+          | [] => simp
+          | _ :: _ :: _ => simp
+        · simp only [hj, Bool.false_eq_true, if_false]
+          by_cases hj1 : (j == 1) = true
+          · simp only [hj1, if_true]
+            match r with
+            | [k] => simp only [renNode_attrs, List.getElem?_map, Option.map_map]; rfl
+            | [] => simp
+            | _ :: _ :: _ => simp
+          · simp only [hj1, Bool.false_eq_true, if_false]
+            rw [renNode_kids]
+            exact lookupIn_ren ρ n.kids (j :: r)
+    · simp [lookupIn, h]
+
+theorem lookup_ren (ρ : Str → Str) (d : XDoc) (k : Key) : lookup (renDoc ρ d) k = (lookup d k).map (renTarget ρ) := by
+  cases k with
+  | nil => simp [lookup, renTarget]
+  | cons i r => simp only [lookup, renDoc]; exact lookupIn_ren ρ d.kids (i :: r)
+
+theorem renTarget_kind (ρ : Str → Str) (t : Target) : (renTarget ρ t).kind = t.kind := by
+  cases t with
+  | node n => cases n <;> rfl
+  | _ => rfl
+
+/-- every key denotes a node of the same kind in the renamed document -/
+theorem kindOf_ren (ρ : Str → Str) (d : XDoc) (k : Key) : kindOf (renDoc ρ d) k = kindOf d k := by
+  unfold kindOf
+  rw [lookup_ren]
+  cases lookup d k <;> simp [renTarget_kind]
+
+/-- the renamed document has the same keys in the same (document) order -/
+theorem keysOf_ren (ρ : Str → Str) (w : Bool) : ∀ (n : XNode) (k : Key), keysOf w k (renNode ρ n) = keysOf w k n
+  | .elem q ns as ks, k => by
+    simp only [renNode, keysOf, List.length_map]
+    rw [keysOfL_ren ρ w ks k 0]
+  | .text _, _ => rfl
+  | .comment _, _ => rfl
+  | .pi _ _, _ => rfl
+where keysOfL_ren (ρ : Str → Str) (w : Bool) : ∀ (l : List XNode) (k : Key) (i : Nat), keysOfL w k i (renNodes ρ l) = keysOfL w k i l
+  | [], _, _ => rfl
+  | n :: r, k, i => by simp only [renNodes, keysOfL]; rw [keysOf_ren ρ w n, keysOfL_ren ρ w r]
+
+theorem allKeys_ren (ρ : Str → Str) (d : XDoc) : allKeys (renDoc ρ d) = allKeys d := by
+  simp only [allKeys, renDoc]; rw [keysOf_ren.keysOfL_ren]
+
+/-- what `ρ` must satisfy to be a consistent renaming: different prefixes stay different, and "no prefix" (the
+    default namespace's entry, prefix `[]`) is kept apart from every prefix -/
+structure Consistent (ρ : Str → Str) : Prop where
+  inj : ∀ a b, ρ a = ρ b → a = b
+  nil : ρ [] = []
+
+theorem Consistent.isEmpty {ρ : Str → Str} (h : Consistent ρ) (p : Str) : (ρ p).isEmpty = p.isEmpty := by
+  cases p with
+  | nil => simp [h.nil]
+  | cons c r =>
+    cases hp : ρ (c :: r) with
+    | nil => have := h.inj (c :: r) [] (by rw [hp, h.nil]); cases this
+    | cons _ _ => rfl
+
+theorem find_ren {ρ : Str → Str} (h : Consistent ρ) (p : Str) : ∀ ns : List (Str × Str),
+    ((ns.map (renNs ρ)).find? (·.1 == ρ p)).map (·.2) = (ns.find? (·.1 == p)).map (·.2)
+  | [] => rfl
+  | b :: r => by
+    simp only [List.map_cons, List.find?_cons, renNs]
+    by_cases hb : b.1 = p
+    · simp [hb]
+    · have h2 : ρ b.1 ≠ ρ p := fun e => hb (h.inj _ _ e)
+      have e1 : (ρ b.1 == ρ p) = false := by simpa using h2
+      have e2 : (b.1 == p) = false := by simpa using hb
+      rw [e1, e2]
+      exact find_ren h p r
+
+theorem findDefault_ren {ρ : Str → Str} (h : Consistent ρ) : ∀ ns : List (Str × Str),
+    ((ns.map (renNs ρ)).find? (·.1.isEmpty)).map (·.2) = (ns.find? (·.1.isEmpty)).map (·.2)
+  | [] => rfl
+  | b :: r => by
+    simp only [List.map_cons, List.find?_cons, renNs, h.isEmpty]
+    cases b.1.isEmpty
+    · exact findDefault_ren h r
+    · rfl
+
+/-- RENAMING THE DOCUMENT'S PREFIXES: every element, attribute and processing instruction keeps its expanded name -/
+theorem expandedName_ren {ρ : Str → Str} (h : Consistent ρ) (d : XDoc) (k : Key) (hk : kindOf d k ≠ .ns) :
+    expandedName (renDoc ρ d) k = expandedName d k := by
+  unfold expandedName
+  rw [lookup_ren]
+  unfold kindOf at hk
+  cases ht : lookup d k with
+  | none => rfl
+  | some t =>
+    rw [ht] at hk
+    cases t with
+    | root => rfl
+    | ns o p u => exact absurd rfl hk
+    | attr o q v =>
+      simp only [Option.map_some, renTarget, renQ, renNode_nss]
+      cases hq : q.pre with
+      | none => rfl
+      | some p => simp only [Option.map_some]; rw [find_ren h]
+    | node n =>
+      cases n with
+      | elem q ns as ks =>
+        simp only [Option.map_some, renTarget, renNode, renQ]
+        cases hq : q.pre with
+        | none => simp only [Option.map_none]; rw [findDefault_ren h]
+        | some p => simp only [Option.map_some]; rw [find_ren h]
+      | _ => rfl
+
+/-- ... and therefore EVERY node test gives the same answer for it, on every axis, whatever the caller's bindings:
+    a name test cannot tell the renamed document from the original -/
+theorem nodeTest_ren {ρ : Str → Str} (h : Consistent ρ) (env : XPath.Env) (a : Axis) (t : NodeTest) (k : Key)
+    (hk : kindOf env.doc k ≠ .ns) :
+    nodeTest { env with doc := renDoc ρ env.doc } a t k = nodeTest env a t k :=
+  nametest_sees_only_expanded_names _ env a t k k rfl (kindOf_ren ρ env.doc k) (expandedName_ren h env.doc k hk)
+
+theorem textDesc_ren (ρ : Str → Str) : ∀ n : XNode, textDesc (renNode ρ n) = textDesc n
+  | .elem _ _ _ ks => by simp only [renNode, textDesc]; exact textDescL_ren ρ ks
+  | .text _ => rfl
+  | .comment _ => rfl
+  | .pi _ _ => rfl
+where textDescL_ren (ρ : Str → Str) : ∀ l : List XNode, textDescL (renNodes ρ l) = textDescL l
+  | [] => rfl
+  | n :: r => by simp only [renNodes, textDescL]; rw [textDesc_ren ρ n, textDescL_ren ρ r]
+
+/-- ... and every node keeps its string-value (namespace nodes included: their value is the URI) -/
+theorem strVal_ren (ρ : Str → Str) (d : XDoc) (k : Key) : strVal (renDoc ρ d) k = strVal d k := by
+  unfold strVal
+  rw [lookup_ren]
+  cases ht : lookup d k with
+  | none => rfl
+  | some t =>
+    cases t with
+    | root => simp only [Option.map_some, renTarget, renDoc]; exact textDesc_ren.textDescL_ren ρ d.kids
+    | node n =>
+      cases n with
+      | elem q ns as ks => simp only [Option.map_some, renTarget, renNode, strValNode]; exact textDesc_ren.textDescL_ren ρ ks
+      | _ => rfl
+    | attr o q v => rfl
+    | ns o p u => rfl
+
+/-- the hypotheses are met by a renaming that is not the identity: `p` becomes `pp`, everything else stays -/
+def exRho (s : Str) : Str := if s = ['p'] then ['p', 'p'] else if s = ['p', 'p'] then ['p'] else s
+example : Consistent exRho := by
+  refine ⟨fun a b hab => ?_, by decide⟩
+  unfold exRho at hab
+  by_cases ha1 : a = ['p'] <;> by_cases ha2 : a = ['p', 'p'] <;> by_cases hb1 : b = ['p'] <;> by_cases hb2 : b = ['p', 'p'] <;>
+    simp only [ha1, ha2, hb1, hb2, if_true, if_false] at hab <;> first | (subst_vars; rfl) | (subst_vars; contradiction) | simp_all
+
+def exDoc : XDoc := { kids := [.elem ⟨some ['p'], ['a']⟩ [(['p'], ['u']), ([], ['d'])] [(⟨some ['p'], ['x']⟩, ['1'])] [.elem ⟨none, ['b']⟩ [(['p'], ['u']), ([], ['d'])] [] []]] }
+example : expandedName exDoc [2] = some (['a'], ['u']) ∧ expandedName (renDoc exRho exDoc) [2] = some (['a'], ['u']) ∧
+    expandedName (renDoc exRho exDoc) [2, 1, 0] = some (['x'], ['u']) ∧ expandedName (renDoc exRho exDoc) [2, 2] = some (['b'], ['d']) ∧
+    qnameOf (renDoc exRho exDoc) [2] = ['p', 'p', ':', 'a'] := by decide
+
 end XmlRs.C10
